@@ -794,6 +794,14 @@ class Model:
         #TODO this is the same as the evaluate_equation method. Replace it.
         return self.memoize(equation,t)
 
+    def previous_time(self, t):
+        """The grid point one time step before t.
+
+        Stocks integrate what their rate was there. t - dt itself carries floating point noise (0.4 - 0.1 is
+        0.30000000000000004), which a time function written directly into a stock equation would see.
+        """
+        return fp.normalize(t - self.dt, self.dt, self.starttime, max(fp.scale(self.starttime), fp.scale(self.dt)))
+
     def memoize(self, equation, arg):
         #TODO: consider making this into an internal method
 
